@@ -26,6 +26,8 @@ EXPLANATION = (
     "for 'p' with l >= 2 and raises TypeError otherwise.  Declined: the integer-vs-fractional heuristic's "
     "behaviour on values; read-back to rounding; arbitrary assignment histories on values."
 )
+TECHNIQUE += '; finite-domain constant evaluation of Shell.nbasis; sibling predicate agreement'
+EXPLANATION += ' R6 now evaluates Shell.nbasis over 179 (angmoms, kinds) combinations against (l+1)(l+2)/2 / 2l+1 / TypeError; R3 also requires occsa, occsb and spinpol to decide the restricted heuristic with one and the same predicate (helper calls inlined).'
 TRUSTED = ["CPython ast parser", "attrs validators run on construction and assignment"]
 
 SPIN_ATTRS = ("occs", "coeffs", "energies", "irreps")
